@@ -62,6 +62,7 @@ def parseOp (t : String) : Option Op :=
   | ["fdd", n, m] => do guardIn n FDS; guardIn m (FDS ++ ["1", "2"]); pure (.fdd (← n.toNat?) (← m.toNat?))
   | ["fdc", n] => do guardIn n FDS; pure (.fdc (← n.toNat?))
   | ["local", n, v] => do guardIn n VARS; guardIn v VALS; pure (.local n v)
+  | ["raise", "KILL"] => some (.raise Fork.SIGKILL)
   | ["raise", s] => do
     let c ← parseCond s
     if c = 0 then none else pure (.raise c)
